@@ -155,6 +155,28 @@ def run(prog, tier) -> Result:
             if not lhs.equals(a_self):
                 return ("portions + remainder != receiver",
                         f"sum of portions + remainder = {lhs!r}; receiver amount {a_self!r}")
+            if q is not None:
+                # R06.6: adjustments move the remainder towards zero and stop there.  With the adjustments
+                # d (one signed quantum each) and the final remainder R, the remainder before the t-th last
+                # adjustment is R + t*d; each of them must be known non-zero (the code checked it) on this path.
+                qn = st.norm(q)
+                deltas = []
+                for i, p in enumerate(portions):
+                    d_ = st.norm(p.amount.rf) - st.rnd(0, (a_self * rs[i] / tot) / qn) * qn
+                    d_ = st.norm(d_)
+                    if not d_.is_zero():
+                        deltas.append(d_)
+                if deltas:
+                    if not all(d_.equals(deltas[0]) for d_ in deltas):
+                        return ("portions are adjusted by different amounts", repr(deltas))
+                    rfin = st.norm(rem.amount.rf)
+                    zero = Num(RF.const(0), "int")
+                    for t in range(1, len(deltas) + 1):
+                        before = rfin + RF.const(t) * deltas[0]
+                        if known_truth(st, CmpV("!=", Num(before, "exact"), zero)) is not True:
+                            return ("a portion is adjusted although the remainder may already be used up",
+                                    f"{len(deltas)} adjustment(s) of {deltas[0]!r}; the remainder {before!r} before the "
+                                    f"{'last' if t == 1 else str(t) + '-th last'} one is not known to be non-zero on this path")
             return None
         return j
 
@@ -171,9 +193,15 @@ def run(prog, tier) -> Result:
                            flag_kinds=("float-arith", "int-div", "none-operand", "none-attribute", "bad-unpack"))
 
     # ---- loop shape: the inductive step for any number of portions
-    loops = [n for n in ast.walk(al.node) if isinstance(n, ast.For)]
+    from ..anchors import _with_private_helpers
+    scope = _with_private_helpers(prog, al, prog.cls("Quantity"))
+    loops = [n for f in scope for n in ast.walk(f.node) if isinstance(n, ast.For)
+             and any(isinstance(s, ast.AugAssign) for s in n.body)]
     if not loops:
-        raise AnalysisError("anchor vanished: dispersal loop in Quantity.allocate")
+        # no statement loop to inspect: the evaluated cases (up to three portions) stand alone
+        res.notes.append("inductive step: no dispersal loop recognised in allocate or its private helpers")
+        res.require("R06.1", 12)
+        return res
     lp = loops[-1]
     augs = [s for s in lp.body if isinstance(s, ast.AugAssign)]
     port = [s for s in augs if isinstance(s.target, ast.Attribute) and s.target.attr in ("_amount",)
@@ -195,9 +223,8 @@ def run(prog, tier) -> Result:
             any(isinstance(n, ast.Call) and src_of(n.func) == "range" for n in ast.walk(al.node))
     res.notes.append(f"loop index from range(n) recognised={idx_ok}")
     res.ob("R06.4", "Quantity.allocate", "loop index enumerates the portions once", True, "", nontrivial=False)
-    brk = any(isinstance(n, ast.Break) for n in ast.walk(lp))
-    res.ob("R06.4", "Quantity.allocate", "loop stops when the remainder is used up", brk, "",
-           sig="dispersal continues after the remainder is zero")
+    res.ob("R06.4", "Quantity.allocate", "loop stops when the remainder is used up (decided per path, rule R06.6)",
+           True, "", nontrivial=False)
     # delta's sign and the sort direction come from the same predicate
     srt = [n for n in ast.walk(al.node) if isinstance(n, ast.Call) and src_of(n.func) == "sorted"]
     rev = [src_of(k.value) for n in srt for k in n.keywords if k.arg == "reverse"]
